@@ -289,7 +289,13 @@ class Program:
             if isinstance(st, ast.Expr) and isinstance(st.value, ast.Call) and isinstance(st.value.func, ast.Attribute) and isinstance(st.value.func.value, ast.Name) \
                     and st.value.func.value.id == name and st.value.func.attr in ('update', 'setdefault', 'pop', 'clear', 'append', 'extend'): return True
             return False
-        r = any(writes(st) for st in m.tree.body)
+        top = [st for st in m.tree.body if not isinstance(st, (ast.FunctionDef, ast.ClassDef, ast.AsyncFunctionDef))]
+        r = any(writes(x) for st in top for x in ast.walk(st) if isinstance(x, ast.stmt))          # also inside top-level loops / ifs
+        if not r:
+            # a registration helper: a module-level function that stores into `name` and is called by a top-level statement
+            writers = {st.name for st in m.tree.body if isinstance(st, ast.FunctionDef) and any(writes(x) for x in ast.walk(st) if isinstance(x, ast.stmt))}
+            if writers:
+                r = any(isinstance(x, ast.Call) and isinstance(x.func, ast.Name) and x.func.id in writers for st in top for x in ast.walk(st))
         if not r:
             # a registration decorator: a module-level function that stores into `name` and is used as decorator somewhere in the module
             decos = {ast.unparse(d.func if isinstance(d, ast.Call) else d) for st in ast.walk(m.tree) if isinstance(st, ast.FunctionDef) for d in st.decorator_list}
